@@ -59,8 +59,8 @@ for T in (PositiveWaveFunction, ComplexWaveFunction):
                 negrows=[tuple(r.tolist()) for r in b[1]]
                 pool=[tuple(map(float,data[i])) for i in range(N) if bases is None or all(c=="Z" for c in basesl[i])]
                 ok &= all(r in pool for r in negrows)
-                shared = bases is None and nbs==pb
-                ok &= (len(negrows)==len(b[0])) if shared else (len(negrows)==nbs)
+                # exactly neg_batch_size rows; tolerated exception: the negative batch *is* the (shorter) tail positive batch
+                ok &= len(negrows)==nbs or (bases is None and nbs==pb and torch.equal(b[1],b[0]))
         if not ok:
             bad+=1
             if bad<4: print("BAD",T.__name__,N,pb,nb,ep,form,pc)
